@@ -808,7 +808,31 @@ def _s_strip(ex, st, s, args, kwargs, node, spec):
     return named_slice(ex.cx, r, j, r.n)
 
 
+def _s_just(left):
+    def f(ex, st, s, args, kwargs, node, spec):
+        width = args[0]
+        if not is_z3(width):
+            width = z3.IntVal(width.v) if isinstance(width, PyConst) else width
+        fill = args[1] if len(args) > 1 else PyConst(" ")
+        if isinstance(fill, PyConst) and isinstance(fill.v, str) and len(fill.v) == 1:
+            fc = z3.IntVal(ord(fill.v))
+        else:
+            fs = as_str(fill)
+            fc = fs.arr[0]
+        n = z3.If(width > s.n, width, s.n)
+        arr = fresh("justified", AII)
+        k = z3.Int("k!lj")
+        if left:      # ljust: the string first, then the fill characters
+            ex.cx.axioms.append(z3.ForAll([k], arr[k] == z3.If(k < s.n, s.arr[k], fc), patterns=[arr[k]]))
+        else:
+            pad = n - s.n
+            ex.cx.axioms.append(z3.ForAll([k], arr[k] == z3.If(k < pad, fc, s.arr[k - pad]), patterns=[arr[k]]))
+        return StrV(arr, n)
+    return f
+
+
 STR_METHODS = {
+    "ljust": _s_just(True), "rjust": _s_just(False),
     "lstrip": _s_lstrip, "rstrip": _s_rstrip, "strip": _s_strip,
     "partition": _s_partition, "find": _s_find, "replace": _s_replace,
     "upper": _map_chars(UPPER), "lower": _map_chars(LOWER), "startswith": _s_startswith, "endswith": _s_endswith,
